@@ -158,9 +158,9 @@ Proof.
   assert (existsb (same_key k) vs = true) by (apply existsb_exists; eauto). congruence.
 Qed.
 
-Lemma variant_eq_current (v : variant) : {v = Current} + {v <> Current}.
+Lemma variant_eq_current (v : addvar) : {v = Current} + {v <> Current}.
 Proof. destruct v; [left | right | right]; congruence. Qed.
-Lemma variant_eq_sort (v : variant) : {v = FixAssignSort} + {v <> FixAssignSort}.
+Lemma variant_eq_sort (v : addvar) : {v = FixAssignSort} + {v <> FixAssignSort}.
 Proof. destruct v; [right | right | left]; congruence. Qed.
 
 Section WithOracle.
@@ -169,7 +169,7 @@ Section WithOracle.
 
   (* ---------- the replace-or-insert step on one slice ---------- *)
   Lemma add_to_list_perm_fixed vs v :
-    var <> Current -> NoDup (map v_key vs) ->
+    v_add var <> Current -> NoDup (map v_key vs) ->
     Permutation (add_to_list O var vs v) (v :: filter (other_key (v_key v)) vs).
   Proof.
     intros Hv ND. unfold add_to_list.
@@ -177,28 +177,28 @@ Section WithOracle.
     - assert (Hm : Permutation (map (fun w => if same_key (v_key v) w then v else w) vs)
                                (v :: filter (other_key (v_key v)) vs))
         by (apply map_replace_perm; auto).
-      destruct var; [contradiction | exact Hm | rewrite sort_versions_perm; exact Hm].
+      destruct (v_add var); [contradiction | exact Hm | rewrite sort_versions_perm; exact Hm].
     - rewrite sort_versions_perm.
-      assert (Hm : map (fun w => if same_key (v_key v) w then match var with Current => w | _ => v end else w) vs = vs).
-      { apply (map_replace_none vs (v_key v) (fun w => match var with Current => w | _ => v end)); auto. }
+      assert (Hm : map (fun w => if same_key (v_key v) w then match v_add var with Current => w | _ => v end else w) vs = vs).
+      { apply (map_replace_none vs (v_key v) (fun w => match v_add var with Current => w | _ => v end)); auto. }
       rewrite Hm.
       rewrite (filter_other_all vs (v_key v)) by (apply existsb_same_key_false; auto).
       symmetry. apply Permutation_cons_append.
   Qed.
 
-  (* the code in the tree: a repeated key leaves the slice as it was *)
+  (* the code before the repair: a repeated key leaves the slice as it was *)
   Lemma add_to_list_current vs v :
-    var = Current -> add_to_list O var vs v =
-      if existsb (same_key (v_key v)) vs then vs else sort_versions O (vs ++ [v]).
+    v_add var = Current -> add_to_list O var vs v =
+      if existsb (same_key (v_key v)) vs then vs else sort_versions (v_cfg var) O (vs ++ [v]).
   Proof.
-    intros ->. unfold add_to_list.
+    intros Hc. unfold add_to_list. rewrite Hc.
     assert (Hm : map (fun w => if same_key (v_key v) w then w else w) vs = vs).
     { clear. induction vs as [|x t IH]; simpl; auto. destruct (same_key (v_key v) x); f_equal; auto. }
     rewrite Hm. auto.
   Qed.
 
   Lemma add_to_list_perm_current vs v :
-    var = Current ->
+    v_add var = Current ->
     Permutation (add_to_list O var vs v) (if existsb (same_key (v_key v)) vs then vs else v :: vs).
   Proof.
     intros Hv. rewrite add_to_list_current by auto.
@@ -209,7 +209,7 @@ Section WithOracle.
   Lemma add_to_list_nodup vs v : NoDup (map v_key vs) -> NoDup (map v_key (add_to_list O var vs v)).
   Proof.
     intros ND.
-    destruct (variant_eq_current var) as [Hc|Hc].
+    destruct (variant_eq_current (v_add var)) as [Hc|Hc].
     - eapply Permutation_NoDup; [symmetry; apply Permutation_map, add_to_list_perm_current; auto|].
       destruct (existsb (same_key (v_key v)) vs) eqn:Ex; auto.
       simpl. constructor; auto. intros Hin. apply in_map_iff in Hin as (w & Hk & Hw).
@@ -223,14 +223,14 @@ Section WithOracle.
   Lemma add_to_list_in vs v w : In w (add_to_list O var vs v) -> w = v \/ In w vs.
   Proof.
     unfold add_to_list; cbv zeta.
-    set (rep := map (fun w0 => if same_key (v_key v) w0 then match var with Current => w0 | _ => v end else w0) vs).
+    set (rep := map (fun w0 => if same_key (v_key v) w0 then match v_add var with Current => w0 | _ => v end else w0) vs).
     assert (Hrep : forall x, In x rep -> x = v \/ In x vs).
     { intros x Hx. apply in_map_iff in Hx as (y & Hy & Hin).
-      destruct (same_key (v_key v) y); [destruct var|]; subst; auto. }
+      destruct (same_key (v_key v) y); [destruct (v_add var)|]; subst; auto. }
     intros H.
     destruct (existsb (same_key (v_key v)) vs).
-    - apply Hrep. destruct var; auto.
-      eapply Permutation_in; [apply (sort_versions_perm O)|]; exact H.
+    - apply Hrep. destruct (v_add var); auto.
+      eapply Permutation_in; [apply (sort_versions_perm (v_cfg var) O)|]; exact H.
     - eapply Permutation_in in H; [|apply sort_versions_perm].
       apply in_app_iff in H as [H|[<-|[]]]; auto.
   Qed.
@@ -296,10 +296,10 @@ Section Steps.
   Qed.
 
   Lemma matching_spec c k :
-    matching_versions O c k =
+    matching_versions O var c k =
       match pkg_list c (vk_pkg k) with
       | None => Err ENotFound
-      | Some vs => Ok (match_requirement O k vs)
+      | Some vs => Ok (match_requirement (v_cfg var) O k vs)
       end.
   Proof. reflexivity. Qed.
 
@@ -338,7 +338,7 @@ Section Steps.
     - destruct (same_key k x); auto.
   Qed.
 
-  Lemma add_to_list_find vs v k : var <> Current -> NoDup (map v_key vs) ->
+  Lemma add_to_list_find vs v k : v_add var <> Current -> NoDup (map v_key vs) ->
     find_ver (add_to_list O var vs v) k = if vkey_eqb (v_key v) k then Some v else find_ver vs k.
   Proof.
     intros Hv ND.
@@ -349,7 +349,7 @@ Section Steps.
   Qed.
 
   (* C14_add, version component: with the replace branch repaired, the addition overwrites *)
-  Lemma ver_lookup_add c v deps k : var <> Current -> wf c ->
+  Lemma ver_lookup_add c v deps k : v_add var <> Current -> wf c ->
     ver_lookup (add_version O var c v deps) k =
       if deleted v then ver_lookup c k
       else if vkey_eqb (v_key v) k then Some v else ver_lookup c k.
@@ -411,7 +411,7 @@ Section Steps.
   Proof. reflexivity. Qed.
 
   (* C14_version: the last addition wins *)
-  Lemma run_ver_lookup ops k : var <> Current ->
+  Lemma run_ver_lookup ops k : v_add var <> Current ->
     ver_lookup (run O var ops) k = option_map fst (last_add ops k).
   Proof.
     intros Hv. induction ops as [|o ops IH] using rev_ind; auto.
@@ -459,8 +459,8 @@ Section Order.
   (* ascending ecosystem order *)
   Definition eco_sorted (sys : N) (vs : list version) : Prop :=
     if N.eqb sys sys_npm
-    then exists base, StronglySorted (npm_le O) base /\ vs = reposition O base
-    else StronglySorted (gen_le O sys) vs.
+    then exists base, StronglySorted (npm_le O) base /\ vs = reposition (v_cfg var) O base
+    else StronglySorted (gen_le (v_cfg var) O sys) vs.
 
   (* the quantifier of the properties has unparsable version strings for npm only *)
   Definition add_parses (o : hop) : Prop :=
@@ -477,11 +477,11 @@ Section Order.
   Definition ord_inv (c : client) : Prop :=
     forall p vs, pkg_list c p = Some vs ->
       if N.eqb (pk_sys p) sys_npm
-      then var = FixAssignSort -> eco_sorted (pk_sys p) vs
-      else StronglySorted (gen_le O (pk_sys p)) vs /\ Forall (gen_parses O (pk_sys p)) vs.
+      then v_add var = FixAssignSort -> eco_sorted (pk_sys p) vs
+      else StronglySorted (gen_le (v_cfg var) O (pk_sys p)) vs /\ Forall (gen_parses O (pk_sys p)) vs.
 
   Lemma sort_versions_npm l :
-    Forall (fun w => v_sys w = sys_npm) l -> sort_versions O l = sort_npm O l.
+    Forall (fun w => v_sys w = sys_npm) l -> sort_versions (v_cfg var) O l = sort_npm (v_cfg var) O l.
   Proof.
     intros H. destruct l as [|v0 t]; [reflexivity|]. unfold sort_versions.
     inversion H; subst. replace (v_sys v0) with sys_npm by auto. rewrite N.eqb_refl. auto.
@@ -489,49 +489,47 @@ Section Order.
 
   Lemma sort_versions_gen sys l :
     N.eqb sys sys_npm = false -> Forall (fun w => v_sys w = sys) l ->
-    sort_versions O l = isort (gen_less O sys) l.
+    sort_versions (v_cfg var) O l = isort (gen_less (v_cfg var) O sys) l.
   Proof.
     intros Hs H. destruct l as [|v0 t]; [reflexivity|]. unfold sort_versions.
     inversion H; subst. rewrite Hs. auto.
   Qed.
 
   Lemma add_to_list_sorted_form vs v :
-    var = FixAssignSort \/ existsb (same_key (v_key v)) vs = false ->
-    exists l, add_to_list O var vs v = sort_versions O l /\ (forall w, In w l -> w = v \/ In w vs) /\ l <> [].
+    v_add var = FixAssignSort \/ existsb (same_key (v_key v)) vs = false ->
+    exists l, add_to_list O var vs v = sort_versions (v_cfg var) O l /\ (forall w, In w l -> w = v \/ In w vs) /\ l <> [].
   Proof.
     intros H. unfold add_to_list; cbv zeta.
-    set (rep := map (fun w0 => if same_key (v_key v) w0 then match var with Current => w0 | _ => v end else w0) vs).
+    set (rep := map (fun w0 => if same_key (v_key v) w0 then match v_add var with Current => w0 | _ => v end else w0) vs).
     assert (Hrep : forall x, In x rep -> x = v \/ In x vs).
     { intros x Hx. apply in_map_iff in Hx as (y & Hy & Hin).
-      destruct (same_key (v_key v) y); [destruct var|]; subst; auto. }
+      destruct (same_key (v_key v) y); [destruct (v_add var)|]; subst; auto. }
     destruct (existsb (same_key (v_key v)) vs) eqn:Ex.
-    - destruct H as [->|H]; [|discriminate]. exists rep. repeat split; auto.
-      intros E. apply existsb_exists in Ex as (x & Hx & _).
-      assert (In ((fun w0 => if same_key (v_key v) w0 then v else w0) x) rep)
-        by (unfold rep; apply (in_map (fun w0 => if same_key (v_key v) w0 then v else w0)); auto).
-      rewrite E in H. destruct H.
+    - destruct H as [H|H]; [|discriminate]. rewrite H. exists rep. repeat split; auto.
+      intros E. unfold rep in E. apply map_eq_nil in E. rewrite E in Ex. discriminate.
     - exists (rep ++ [v]). repeat split; auto.
       + intros w Hw. apply in_app_iff in Hw as [Hw|[<-|[]]]; auto.
       + intros E. apply app_eq_nil in E as [_ E]. discriminate.
   Qed.
 
   Lemma add_to_list_replaced_form vs v :
-    var <> FixAssignSort -> existsb (same_key (v_key v)) vs = true ->
+    v_add var <> FixAssignSort -> existsb (same_key (v_key v)) vs = true ->
     add_to_list O var vs v =
-      map (fun w => if same_key (v_key v) w then match var with Current => w | _ => v end else w) vs.
+      map (fun w => if same_key (v_key v) w then match v_add var with Current => w | _ => v end else w) vs.
   Proof.
-    intros Hv Ex. unfold add_to_list. rewrite Ex. destruct var; auto. contradiction.
+    intros Hv Ex. unfold add_to_list. rewrite Ex. destruct (v_add var); auto. contradiction.
   Qed.
 
   Lemma map_ver_sorted sys (f : version -> version) vs :
     (forall w, In w vs -> ver (f w) = ver w) ->
-    StronglySorted (gen_le O sys) vs -> StronglySorted (gen_le O sys) (map f vs).
+    StronglySorted (gen_le (v_cfg var) O sys) vs -> StronglySorted (gen_le (v_cfg var) O sys) (map f vs).
   Proof.
     intros Hf H. induction H as [|x t Ht IH Hx]; simpl; [constructor|].
     constructor.
     - apply IH. intros; apply Hf; simpl; auto.
     - rewrite Forall_forall in *. intros y Hy. apply in_map_iff in Hy as (z & <- & Hz).
-      unfold gen_le, gen_cmp. rewrite !Hf by (simpl; auto). apply Hx; auto.
+      unfold gen_le. rewrite (gen_cmp_ver (v_cfg var) O sys (f x) (f z) x z) by (apply Hf; simpl; auto).
+      apply Hx; auto.
   Qed.
 
   Lemma nil_eco_sorted sys : eco_sorted sys [].
@@ -543,7 +541,7 @@ Section Order.
   Section WithLaws.
     Hypothesis HL : laws_ok.
 
-    Lemma sort_npm_eco l : eco_sorted sys_npm (sort_npm O l).
+    Lemma sort_npm_eco l : eco_sorted sys_npm (sort_npm (v_cfg var) O l).
     Proof.
       unfold eco_sorted. rewrite N.eqb_refl. exists (isort (npm_less O) l). split; auto.
       apply isort_npm_sorted. apply HL.
@@ -559,8 +557,8 @@ Section Order.
       - apply pkey_eqb_eq in Ep. subst p. intros H; inversion H; subst; clear H.
         destruct (wf_or_nil c (v_pkg v) W) as [ND FA].
         assert (Iold : if N.eqb (pk_sys (v_pkg v)) sys_npm
-                       then var = FixAssignSort -> eco_sorted (pk_sys (v_pkg v)) (pkg_list_or_nil c (v_pkg v))
-                       else StronglySorted (gen_le O (pk_sys (v_pkg v))) (pkg_list_or_nil c (v_pkg v)) /\
+                       then v_add var = FixAssignSort -> eco_sorted (pk_sys (v_pkg v)) (pkg_list_or_nil c (v_pkg v))
+                       else StronglySorted (gen_le (v_cfg var) O (pk_sys (v_pkg v))) (pkg_list_or_nil c (v_pkg v)) /\
                             Forall (gen_parses O (pk_sys (v_pkg v))) (pkg_list_or_nil c (v_pkg v))).
         { unfold pkg_list_or_nil. destruct (pkg_list c (v_pkg v)) eqn:E; [apply (I _ _ E)|].
           destruct (N.eqb (pk_sys (v_pkg v)) sys_npm); [intros; apply nil_eco_sorted | split; constructor]. }
@@ -578,7 +576,7 @@ Section Order.
           destruct Iold as [Sold Pold].
           assert (Pv : gen_parses O (pk_sys (v_pkg v)) v) by (apply Hp; auto).
           destruct (existsb (same_key (v_key v)) old) eqn:Ex.
-          * destruct (variant_eq_sort var) as [Hvar|Hvar].
+          * destruct (variant_eq_sort (v_add var)) as [Hvar|Hvar].
             -- destruct (add_to_list_sorted_form old v (or_introl Hvar)) as (l & -> & Hl & _).
                assert (Pl : Forall (gen_parses O (pk_sys (v_pkg v))) l).
                { apply Forall_forall. intros w Hw. destruct (Hl w Hw) as [->|Hin]; auto.
@@ -589,9 +587,9 @@ Section Order.
                ++ apply Forall_forall. intros w Hw. apply Hsys, Hl; auto.
             -- rewrite add_to_list_replaced_form by auto.
                assert (Hver : forall w, In w old ->
-                         ver (if same_key (v_key v) w then match var with Current => w | _ => v end else w) = ver w).
+                         ver (if same_key (v_key v) w then match v_add var with Current => w | _ => v end else w) = ver w).
                { intros w Hw. destruct (same_key (v_key v) w) eqn:E; auto.
-                 apply same_key_true in E. destruct var; auto; unfold ver; rewrite E; auto. }
+                 apply same_key_true in E. destruct (v_add var); auto; unfold ver; rewrite E; auto. }
                split; [apply map_ver_sorted; auto|].
                apply Forall_forall. intros y Hy. apply in_map_iff in Hy as (z & <- & Hz).
                unfold gen_parses. rewrite Hver by auto. rewrite Forall_forall in Pold. apply Pold; auto.
@@ -666,7 +664,7 @@ Section Final.
   Variable O : oracle.
   Variable var : variant.
 
-  Lemma versions_members ops p vs : var <> Current ->
+  Lemma versions_members ops p vs : v_add var <> Current ->
     versions_of (run O var ops) p = Ok vs ->
     NoDup (map v_key vs) /\
     forall v, In v vs <-> (v_pkg v = p /\ option_map fst (last_add ops (v_key v)) = Some v).
@@ -684,8 +682,8 @@ Section Final.
 
   Lemma versions_sorted ops p vs :
     laws_ok O -> Forall (add_parses O) ops ->
-    var = FixAssignSort \/ N.eqb (pk_sys p) sys_npm = false ->
-    versions_of (run O var ops) p = Ok vs -> eco_sorted O (pk_sys p) vs.
+    v_add var = FixAssignSort \/ N.eqb (pk_sys p) sys_npm = false ->
+    versions_of (run O var ops) p = Ok vs -> eco_sorted O var (pk_sys p) vs.
   Proof.
     intros HL HP Hc H. unfold versions_of in H.
     destruct (pkg_list (run O var ops) p) eqn:E; inversion H; subst; clear H.
@@ -712,12 +710,12 @@ Section Canonical.
      for it: the order of the slice does not remember the order of the additions.  For
      Maven and PyPI this needs the side condition of F-C12-1. *)
   Lemma versions_canonical ops1 ops2 p vs1 vs2 :
-    var <> Current ->
-    var = FixAssignSort \/ N.eqb (pk_sys p) sys_npm = false ->
+    v_add var <> Current ->
+    v_add var = FixAssignSort \/ N.eqb (pk_sys p) sys_npm = false ->
     Forall (add_parses O) ops1 -> Forall (add_parses O) ops2 ->
     Forall add_concrete ops1 -> Forall add_concrete ops2 ->
     (forall k, vk_pkg k = p -> option_map fst (last_add ops1 k) = option_map fst (last_add ops2 k)) ->
-    (N.eqb (pk_sys p) sys_npm = false -> no_equal_distinct O (pk_sys p) vs1) ->
+    (N.eqb (pk_sys p) sys_npm = false -> separated (v_cfg var) O (pk_sys p) vs1) ->
     versions_of (run O var ops1) p = Ok vs1 ->
     versions_of (run O var ops2) p = Ok vs2 ->
     vs1 = vs2.
@@ -744,7 +742,7 @@ Section Canonical.
     destruct (N.eqb (pk_sys p) sys_npm) eqn:Es.
     - destruct S1 as (b1 & Sb1 & ->). destruct S2 as (b2 & Sb2 & ->).
       assert (Hpb : Permutation b1 b2).
-      { rewrite <- (reposition_perm O b1), <- (reposition_perm O b2). auto. }
+      { rewrite <- (reposition_perm (v_cfg var) O b1), <- (reposition_perm (v_cfg var) O b2). auto. }
       assert (NVb : NoDup (map ver b1)).
       { eapply Permutation_NoDup; [apply Permutation_map; apply reposition_perm | exact NV1]. }
       f_equal.
@@ -752,7 +750,7 @@ Section Canonical.
       + apply Forall_forall; auto.
       + apply npm_separates; auto.
     - pose proof (run_ord O var HL ops1 P1 _ _ E1) as I1. rewrite Es in I1. destruct I1 as [_ PP1].
-      apply (gen_sorted_unique O (pk_sys p) (HL (pk_sys p))); auto.
+      apply (gen_sorted_unique (v_cfg var) O (pk_sys p) (HL (pk_sys p))); auto.
   Qed.
 
   (* ... and so does MatchingVersions, which is a function of that slice *)
@@ -760,7 +758,7 @@ Section Canonical.
     versions_of (run O var ops1) (vk_pkg k) = Ok vs1 ->
     versions_of (run O var ops2) (vk_pkg k) = Ok vs2 ->
     vs1 = vs2 ->
-    matching_versions O (run O var ops1) k = matching_versions O (run O var ops2) k.
+    matching_versions O var (run O var ops1) k = matching_versions O var (run O var ops2) k.
   Proof.
     intros H1 H2 E. rewrite !matching_spec. unfold versions_of in *.
     destruct (pkg_list (run O var ops1) (vk_pkg k)); inversion H1; subst.
@@ -775,15 +773,19 @@ Definition mkv (sys : N) (name : bytes) (s : bytes) (attrs : list (Z * bytes)) :
   {| v_key := {| vk_pkg := {| pk_sys := sys; pk_name := name |}; vk_type := vt_concrete; vk_ver := s |};
      v_attrs := vset_of_pairs attrs |}.
 
-(* F-C14-1 on the code in the tree: a Maven version added twice, the second time with a
+Definition mkvar (a : addvar) (C : mcfg) : variant := {| v_add := a; v_cfg := C |}.
+Definition var_old : variant := mkvar Current cfg_old.           (* before any repair *)
+Definition var_repaired : variant := mkvar FixAssignSort cfg_repaired.
+
+(* F-C14-1 on the code before the repair: a Maven version added twice, the second time with a
    different attribute; Version still answers with the first.  No oracle is consulted. *)
 Definition w_stale_v1 : version := mkv sys_maven [97] [49] [(ver_tags, [120])].
 Definition w_stale_v2 : version := mkv sys_maven [97] [49] [(ver_tags, [121])].
 Definition w_stale : list hop := [HAdd w_stale_v1 []; HAdd w_stale_v2 []].
 
-Lemma stale_witness O :
+Lemma stale_witness O C :
   option_map fst (last_add w_stale (v_key w_stale_v2)) = Some w_stale_v2 /\
-  version_of (run O Current w_stale) (v_key w_stale_v2) = Ok w_stale_v1 /\
+  version_of (run O (mkvar Current C) w_stale) (v_key w_stale_v2) = Ok w_stale_v1 /\
   w_stale_v1 <> w_stale_v2.
 Proof. repeat split; try reflexivity. discriminate. Qed.
 
@@ -808,9 +810,9 @@ Definition w_resort : list hop :=
 Definition w_resort_pkg : pkey := {| pk_sys := sys_npm; pk_name := [97] |}.
 
 Lemma resort_witness :
-  exists vs, versions_of (run demo_oracle FixAssign w_resort) w_resort_pkg = Ok vs /\
-             sort_versions demo_oracle vs <> vs /\
-             versions_of (run demo_oracle FixAssignSort w_resort) w_resort_pkg = Ok (sort_versions demo_oracle vs).
+  exists vs, versions_of (run demo_oracle (mkvar FixAssign cfg_repaired) w_resort) w_resort_pkg = Ok vs /\
+             sort_versions cfg_repaired demo_oracle vs <> vs /\
+             versions_of (run demo_oracle var_repaired w_resort) w_resort_pkg = Ok (sort_versions cfg_repaired demo_oracle vs).
 Proof. eexists. split; [reflexivity|]. split; [vm_compute; discriminate | reflexivity]. Qed.
 
 (* F-C12-1 at the client: the same two PyPI versions added in the two possible orders,
@@ -832,12 +834,18 @@ Qed.
 Lemma client_tie_witness :
   (forall k, option_map fst (last_add w_tie_1 k) = option_map fst (last_add w_tie_2 k)) /\
   Forall add_concrete w_tie_1 /\ Forall add_concrete w_tie_2 /\
-  matching_versions tie_oracle (run tie_oracle FixAssignSort w_tie_1) w_tie_req = Ok [w_a; w_b] /\
-  matching_versions tie_oracle (run tie_oracle FixAssignSort w_tie_2) w_tie_req = Ok [w_b; w_a].
+  matching_versions tie_oracle (mkvar FixAssignSort cfg_old) (run tie_oracle (mkvar FixAssignSort cfg_old) w_tie_1) w_tie_req = Ok [w_a; w_b] /\
+  matching_versions tie_oracle (mkvar FixAssignSort cfg_old) (run tie_oracle (mkvar FixAssignSort cfg_old) w_tie_2) w_tie_req = Ok [w_b; w_a].
 Proof.
   split; [intros k; apply last_add_two; try reflexivity; discriminate|].
   repeat split; repeat constructor.
 Qed.
+
+(* with the tie-break both orders of insertion give the same slice and the same matches *)
+Lemma client_tie_repaired :
+  matching_versions tie_oracle var_repaired (run tie_oracle var_repaired w_tie_1) w_tie_req = Ok [w_a; w_b] /\
+  matching_versions tie_oracle var_repaired (run tie_oracle var_repaired w_tie_2) w_tie_req = Ok [w_a; w_b].
+Proof. split; reflexivity. Qed.
 
 (* the hypotheses of versions_canonical are satisfiable: two Maven versions, both orders *)
 Definition w_c1 : version := mkv sys_maven [97] [49] [].
@@ -849,18 +857,17 @@ Lemma canonical_example :
   Forall (add_parses demo_oracle) h1 /\ Forall (add_parses demo_oracle) h2 /\
   Forall add_concrete h1 /\ Forall add_concrete h2 /\
   (forall k, vk_pkg k = p -> option_map fst (last_add h1 k) = option_map fst (last_add h2 k)) /\
-  versions_of (run demo_oracle FixAssign h1) p = Ok [w_c1; w_c2] /\
-  versions_of (run demo_oracle FixAssign h2) p = Ok [w_c1; w_c2] /\
-  no_equal_distinct demo_oracle sys_maven [w_c1; w_c2].
+  versions_of (run demo_oracle var_repaired h1) p = Ok [w_c1; w_c2] /\
+  versions_of (run demo_oracle var_repaired h2) p = Ok [w_c1; w_c2] /\
+  separated cfg_repaired demo_oracle sys_maven [w_c1; w_c2].
 Proof.
   cbv zeta. repeat split; try (repeat constructor; fail).
-  - intros k _. apply last_add_two; try reflexivity; discriminate.
-  - intros a b _ _ E. simpl in E. apply bytes_compare_eq in E. auto.
+  intros k _. apply last_add_two; try reflexivity; discriminate.
 Qed.
 
 (* ====================================================================== *)
 (* the statements in the form Properties/C14.v quotes *)
-Lemma run_version_of O var ops k : var <> Current ->
+Lemma run_version_of O var ops k : v_add var <> Current ->
   version_of (run O var ops) k =
     match last_add ops k with Some (v, _) => Ok v | None => Err ENotFound end.
 Proof.
@@ -887,14 +894,14 @@ Proof.
   - apply orb_true_iff. right. apply existsb_exists. exists r. split; auto. apply pkey_eqb_refl.
 Qed.
 
-Lemma add_current_refuted :
+Lemma add_current_refuted C :
   ~ (forall O c v deps k, wf c ->
-       ver_lookup (add_version O Current c v deps) k =
+       ver_lookup (add_version O (mkvar Current C) c v deps) k =
          if deleted v then ver_lookup c k else if vkey_eqb (v_key v) k then Some v else ver_lookup c k).
 Proof.
   intros H.
-  specialize (H demo_oracle (run demo_oracle Current [HAdd w_stale_v1 []]) w_stale_v2 [] (v_key w_stale_v2)
-                (run_wf demo_oracle Current _)).
+  specialize (H demo_oracle (run demo_oracle (mkvar Current C) [HAdd w_stale_v1 []]) w_stale_v2 [] (v_key w_stale_v2)
+                (run_wf demo_oracle (mkvar Current C) _)).
   vm_compute in H. discriminate.
 Qed.
 
